@@ -14,6 +14,16 @@
 (* mutOperation).  IncreaseLoadObs takes the observed result as a parameter  *)
 (* (trace validation of a run that has diverged from the functional model).  *)
 (*                                                                          *)
+(* ATOMICITY: IncreaseLoad is ONE atomic step -- the lookup of the peer's     *)
+(* entry, the decision and the update of the counters (or the creation of    *)
+(* the default entry) happen in one critical section (mutOperation held in   *)
+(* write mode).  The bounds below depend on it: were lookup and update two   *)
+(* steps, concurrent first messages of a peer would each find no entry, each *)
+(* create a default entry and all be accepted.  The concurrent stage of the  *)
+(* check (WindowObs) holds the real code to this: whatever the interleaving  *)
+(* of concurrent IncreaseLoad calls, the per-window totals must satisfy the  *)
+(* same invariants.                                                          *)
+(*                                                                          *)
 (* Numbers: PercentReserved is a float32 in the code; here it is given in    *)
 (* tenths of a percent (prT); uint64(100 - percentReserved) is               *)
 (* (1000 - prT) \div 10.  IncreaseFactor is given in quarters (fQ);          *)
@@ -93,6 +103,16 @@ IncreaseLoadObs(p, s, a) ==
     /\ UNCHANGED <<cfg, ok, computed, hiMax>>
 
 IncreaseLoad(p, s) == IncreaseLoadObs(p, s, Decide(p, s).accept)
+
+\* Observed totals of one reset window of a CONCURRENT run (G goroutines calling IncreaseLoad for peer p at the same
+\* time): n messages / bytes accepted, `first` = an upper bound of the size of the first accepted message (the largest
+\* accepted size).  Only the property accounting is set; the invariants are then evaluated on it.
+WindowObs(p, n, bytes, first) ==
+    /\ ok
+    /\ acc' = [acc EXCEPT ![p] = [n |-> n, bytes |-> bytes, first |-> first]]
+    /\ hist' = Log(hist, [a |-> "Window", in |-> [p |-> p], out |-> [n |-> n, bytes |-> bytes, first |-> first],
+                         st |-> [peers |-> Cardinality(DOMAIN q)]])
+    /\ UNCHANGED <<cfg, ok, computed, q, hiMax>>
 
 \* Reset: statistics are reported to the status handlers, then the cacher is cleared
 Reset ==
